@@ -23,6 +23,10 @@ import (
 
 var c11Symbols = []string{"a", "\n", "\r"}
 
+// c11Wide adds a two-byte and a three-byte character: columns are BYTE columns (offset - line start + 1), so an
+// offset inside or after a multi-byte character must not be counted in characters
+var c11Wide = []string{"a", "\n", "\r", "é", "€"}
+
 type c11Case struct {
 	Files   []string `json:"files"` // Go-quoted contents
 	NameSet int      `json:"file_name_set,omitempty"`
@@ -196,10 +200,22 @@ func c11Set(res *explore.Result, contents []string, verbose bool) {
 				positions[i], positions[j] = positions[j], positions[i]
 			}
 		}
+		// the Position values handed out are kept and rendered AGAIN after all queries: a translation that was right
+		// when it was returned must still read the same after later lookups in the same file / file set
+		type kept struct {
+			p    parsley.Position
+			was  string
+			what string
+		}
+		var retained []kept
 		for _, p := range positions {
 			res.Add("transitions", 1)
 			var got string
-			if pm := guard(func() { got = fs.Position(parsley.Pos(p)).String() }); pm != "" {
+			if pm := guard(func() {
+				pp := fs.Position(parsley.Pos(p))
+				got = pp.String()
+				retained = append(retained, kept{pp, got, fmt.Sprintf("FileSet.Position(%d)", p)})
+			}); pm != "" {
 				res.Violate("panic:FileSet.Position", fmt.Sprintf("%s (%s): FileSet.Position(%d) panicked: %s", desc, v.name, p, pm), cs)
 				return
 			}
@@ -224,13 +240,22 @@ func c11Set(res *explore.Result, contents []string, verbose bool) {
 				seenGlobal[gp] = fmt.Sprintf("f%d+%d", i, off)
 				l, c := lineColOf(norm[i], off)
 				want := show(i, l, c)
-				if got := f.Position(off).String(); got != want {
+				pp := f.Position(off)
+				retained = append(retained, kept{pp, pp.String(), fmt.Sprintf("file %d Position(%d)", i, off)})
+				if got := pp.String(); got != want {
 					res.Violate("File.Position", fmt.Sprintf("%s (%s): file %d Position(%d) = %s, expected %s", desc, v.name, i, off, got, want), cs)
 					return
 				}
 			}
 			if got := f.Position(len(norm[i]) + 1).String(); got != "unknown" {
 				res.Violate("File.Position", fmt.Sprintf("%s (%s): file %d Position(len+1) = %s, expected unknown", desc, v.name, i, got), cs)
+				return
+			}
+		}
+		for _, k := range retained {
+			res.Add("transitions", 1)
+			if now := k.p.String(); now != k.was {
+				res.Violate("position-value-rewritten-later", fmt.Sprintf("%s (%s): the value returned by %s read %s and reads %s after the later lookups", desc, v.name, k.what, k.was, now), cs)
 				return
 			}
 		}
@@ -271,13 +296,16 @@ func c11Cleanup() {
 	}
 }
 
-type c11Bound struct{ files, maxLen int }
+type c11Bound struct {
+	files, maxLen int
+	wide          bool // contents over c11Wide instead of c11Symbols
+}
 
 func c11Bounds(tier string) []c11Bound {
 	if tier == "thorough" {
-		return []c11Bound{{1, 9}, {2, 6}, {3, 4}}
+		return []c11Bound{{1, 9, false}, {2, 6, false}, {3, 4, false}, {1, 7, true}, {2, 3, true}}
 	}
-	return []c11Bound{{1, 7}, {2, 5}, {3, 3}}
+	return []c11Bound{{1, 7, false}, {2, 5, false}, {3, 3, false}, {1, 5, true}, {2, 2, true}}
 }
 
 func c11Run(env *explore.Env) *explore.Result {
@@ -286,6 +314,10 @@ func c11Run(env *explore.Env) *explore.Result {
 	var idx int64
 	for _, b := range c11Bounds(env.Tier) {
 		contents := c11Contents(b.maxLen)
+		if b.wide {
+			contents = contents[:0]
+			eachString(c11Wide, b.maxLen, func(_ int64, s string, _ []int) { contents = append(contents, s) })
+		}
 		cur := make([]string, b.files)
 		var rec func(k int)
 		rec = func(k int) {
@@ -364,6 +396,10 @@ func init() {
 		Bounds: func(tier string) map[string]any {
 			m := map[string]any{}
 			for _, b := range c11Bounds(tier) {
+				if b.wide {
+					m[fmt.Sprintf("%d_file_sets_with_multibyte_characters_max_symbols", b.files)] = b.maxLen
+					continue
+				}
 				m[fmt.Sprintf("%d_file_sets_max_content_len", b.files)] = b.maxLen
 			}
 			return m
